@@ -48,6 +48,13 @@ D4_WHAT = ("zero-window handling (D4 family): with the peer's window closed the 
            "poll_recv should_update, segment_one wnd_remaining, check_retx]")
 
 
+def d4_listed(ck):
+    """The zero-window family is tolerated only while known_findings.json lists it
+    (entry with property C06 and id D4); removing the entry re-arms the alarm."""
+    return any(isinstance(f, dict) and f.get("id") == "D4" and f.get("property") == "C06"
+               for f in ck.findings.get("findings", []))
+
+
 def consts(**kw):
     c = dict(MaxP=1, Mss=1, SendCap=2, RecvCap=2, Backlog=1, RetxT=3, RetxMax=2, PremD=1, PremAge=0,
              WriteSizes={2}, ReadSizes={1, 2}, MaxBytes=2, MaxAge=0, MaxDrops=1,
@@ -111,8 +118,8 @@ def mc_configs(pid, tier):
         if not q:
             cfgs += [
                 ("mc_data_delay", consts(WriteSizes={2}, MaxBytes=2, MaxAge=1, MaxDrops=1), data_need),
-                ("mc_data_t2", consts(RetxT=2, RetxMax=2, PremD=1, WriteSizes={1, 2}, MaxBytes=3, MaxAge=0, MaxDrops=2), data_need),
-                ("mc_both_dirs", consts(WriteSizes={1}, ReadSizes={1}, MaxBytes=1, MaxAge=1, MaxDrops=1,
+                ("mc_data_t2", consts(RetxT=2, RetxMax=2, PremD=1, WriteSizes={1, 2}, MaxBytes=3, MaxAge=0, MaxDrops=1), data_need),
+                ("mc_both_dirs", consts(WriteSizes={1}, ReadSizes={1}, MaxBytes=1, MaxAge=0, MaxDrops=1,
                                         Writers={"c", "s"}, Readers={"c", "s"}), data_need),
             ]
         return cfgs
@@ -125,10 +132,10 @@ def mc_configs(pid, tier):
         ]
         if not q:
             cfgs += [
-                ("mc_caps_wide", consts(Mss=2, SendCap=2, RecvCap=3, WriteSizes={2, 1}, ReadSizes={1, 2}, MaxBytes=4,
-                                        MaxAge=1, MaxDrops=1), data_need),
+                ("mc_caps_wide", consts(Mss=2, SendCap=2, RecvCap=3, WriteSizes={2, 1}, ReadSizes={1, 2}, MaxBytes=3,
+                                        MaxAge=0, MaxDrops=1), data_need),
                 ("mc_caps_mss3", consts(Mss=3, SendCap=4, RecvCap=2, WriteSizes={4}, ReadSizes={1, 2}, MaxBytes=4,
-                                        MaxAge=1, MaxDrops=1), data_need),
+                                        MaxAge=0, MaxDrops=1), data_need),
             ]
         return cfgs
     if pid == "C13":
@@ -144,8 +151,8 @@ def mc_configs(pid, tier):
                                            Ops={"listen", "connect", "accept", "close", "cancel"}, MaxAge=0, MaxDrops=1,
                                            Writers=set(), Readers=set()),
                  ["AConnect", "APoll", "ACancel", "AAccept", "AClose", "AEgress", "ADeliver", "ADrop"]),
-                ("mc_close_with_data", consts(Start="est", RetxT=2, RetxMax=2, PremD=1, WriteSizes={1}, ReadSizes={1},
-                                              MaxBytes=1, MaxAge=0, MaxDrops=1, Writers={"c", "s"}, Readers={"c", "s"},
+                ("mc_close_with_data", consts(Start="est", RetxT=3, RetxMax=2, PremD=1, WriteSizes={1}, ReadSizes={1},
+                                              MaxBytes=1, MaxAge=0, MaxDrops=2, Writers={"c"}, Readers={"s"},
                                               Ops={"listen", "connect", "accept", "write", "read", "shutdown", "close"}),
                  ["AWrite", "ARead", "AShutdown", "AClose", "AEgress", "ADeliver", "ADrop"]),
             ]
@@ -311,7 +318,7 @@ def judge_trace(ck, pid, path, c, tag, payload, known_state):
                 f"the PropSpec accepted it (drift, no alarm)")
             return True, 1
         return True, 0
-    if pr.violated in FAMILY_CLAUSES[pid] and not pr.unmatched:
+    if pr.violated in FAMILY_CLAUSES[pid] and not pr.unmatched and d4_listed(ck):
         if not rejected(ir):
             # the code did exactly what the model of the defective algorithm does and a Dev_*
             # predicate of the recorded family held where the PropSpec objects
@@ -340,7 +347,7 @@ def judge_runs(ck, pid, path, c, tag, payload, known_state, limit=6):
         p1 = run_prop_trace(pid, one, c, f"{tag}_o{it}")
         i1 = run_impl_trace(pid, one, c, f"{tag}_o{it}")
         if rejected(p1):
-            if p1.violated in FAMILY_CLAUSES[pid] and not p1.unmatched and not rejected(i1):
+            if p1.violated in FAMILY_CLAUSES[pid] and not p1.unmatched and not rejected(i1) and d4_listed(ck):
                 known_state["d4"] = True
             else:
                 ck.violation(dict(payload, run_events=[json.loads(x) for x in runs[k]][:400],
@@ -466,7 +473,8 @@ def run(pid, tier, seed, replay=None):
                 + (" (the recorded finding no longer reproduces)" if rp.get("finding") else ""))
             continue
         ir = run_impl_trace(pid, tp, c, f"{pid}_corpus")
-        if rp.get("finding") and pr.violated in FAMILY_CLAUSES[pid] and not pr.unmatched and not rejected(ir):
+        if (rp.get("finding") == "D4" and d4_listed(ck) and pr.violated in FAMILY_CLAUSES[pid] and not pr.unmatched
+                and not rejected(ir)):
             ck.known(rp["finding"], f"{pr.violated}: {rp['what']} (witness corpus/{os.path.basename(cf)})")
             known_state["printed"] = True
             continue
